@@ -4,6 +4,7 @@ import (
 	"fmt"
 	"math/big"
 	"math/rand"
+	"strings"
 
 	"verif/harness/gen"
 	"verif/harness/model"
@@ -183,6 +184,15 @@ func newWorld(r *rand.Rand, o worldOpts) *World {
 		d2 := r.Intn(len(w.Log))
 		w.Log[d2].Ents = append(w.Log[d2].Ents, gen.Ent{Name: w.Recipes[1], Val: gen.N("5")})
 	}
+	if r.Intn(5) == 0 {
+		if old, nn := relateNames(r, w.Book, w.Log, append(append([]string{}, w.Basics...), w.Unknown...)); nn != "" {
+			for ri := range w.Recipes {
+				if w.Recipes[ri] == old {
+					w.Recipes[ri] = nn
+				}
+			}
+		}
+	}
 	if twins != nil && len(w.Log) > 0 {
 		d1 := r.Intn(len(w.Log))
 		d2 := d1 + r.Intn(len(w.Log)-d1)
@@ -205,6 +215,52 @@ func newWorld(r *rand.Rand, o worldOpts) *World {
 	w.BookText = gen.RenderBook(w.Book, st)
 	w.LogText = gen.RenderLog(w.Log, o.Layout, st)
 	return w
+}
+
+// relateNames renames one recipe so that its name stands in a textual relation to the name of a recipe it uses:
+// "rye bread" made of "bread", "salad/tuna/mayonnaise" made of "mayonnaise" (suffix), also prefix and infix. The
+// renaming is applied to every declaration and reference in the book and the log. Returns the old and the new name
+// ("" if no recipe refers to another one or the new name is taken).
+func relateNames(r *rand.Rand, book gen.Book, log gen.Log, others []string) (string, string) {
+	def := map[string]bool{}
+	for _, rec := range book {
+		def[rec.Name] = true
+	}
+	type pair struct{ outer, inner string }
+	var pairs []pair
+	for _, rec := range book {
+		for _, e := range rec.Ents {
+			if def[e.Name] && e.Name != rec.Name {
+				pairs = append(pairs, pair{rec.Name, e.Name})
+			}
+		}
+	}
+	if len(pairs) == 0 {
+		return "", ""
+	}
+	pr := pairs[r.Intn(len(pairs))]
+	nn := []string{pr.outer + " " + pr.inner, pr.outer + "/" + pr.inner, pr.inner + " " + pr.outer, pr.outer + pr.inner, "x" + pr.inner}[r.Intn(5)]
+	if def[nn] || inList(others, nn) || strings.Contains(nn, " /") || strings.Contains(nn, "/ ") {
+		return "", ""
+	}
+	ren := func(n string) string {
+		if n == pr.outer {
+			return nn
+		}
+		return n
+	}
+	for bi := range book {
+		book[bi].Name = ren(book[bi].Name)
+		for ei := range book[bi].Ents {
+			book[bi].Ents[ei].Name = ren(book[bi].Ents[ei].Name)
+		}
+	}
+	for di := range log {
+		for ei := range log[di].Ents {
+			log[di].Ents[ei].Name = ren(log[di].Ents[ei].Name)
+		}
+	}
+	return pr.outer, nn
 }
 
 func inList(xs []string, x string) bool {
